@@ -275,5 +275,45 @@ static inline void yk_hook(int kind, const void* p)
     }
     if (kind == 5) { yk_layers++; if (yk_layers >= YK_MAX_LAYERS) { YK_ASSERT(0, "bound: descent below the deepest layer of the shape"); YK_ASSUME(0); } }
 }
+#else
+/* ---- sequentialized schedules (kind S, DESIGN 2.5): thread entries are coroutines (ll2c coroutine mode); every hook
+ * inside them is a possible pre-emption point, decided by yk_preempt(); code outside the thread entries (harness
+ * set-up, oracles, non-inlined callees) runs atomically. */
+#ifndef YK_NT
+#define YK_NT 2
+#endif
+#ifndef YK_MAXCTX
+#define YK_MAXCTX 24
+#endif
+#ifndef YK_DRAIN_ROUNDS
+#define YK_DRAIN_ROUNDS 3
+#endif
+extern int32_t yk_cur;                 /* running thread or -1 */
+extern uint8_t yk_draining;
+extern uint32_t yk_hooks_in_ctx;
+extern uint32_t yk_nctx;               /* contexts executed so far (incl. drain) */
+extern uint8_t yk_sched[YK_MAXCTX];    /* thread run in context c */
+extern uint32_t yk_ctx_len[YK_MAXCTX]; /* hooks passed in context c (the last one pre-empted unless the thread finished) */
+extern uint8_t yk_ctx_fin[YK_MAXCTX];  /* the thread finished in context c */
+extern uint8_t yk_done[YK_NT];
+extern uint32_t yk_layers;
+extern uint32_t yk_sleeps;
+static inline void yk_pause(void) { }
+static inline void yk_sleep(void) { }
+static inline void yk_stop(void) { YK_ASSUME(0); }
+static inline void yk_hook(int kind, const void* p) { yk_watch_note(kind, p); }   /* outside thread entries: atomic */
+static inline int yk_preempt(int kind, const void* p)
+{
+    yk_watch_note(kind, p);
+    yk_hooks_in_ctx++;
+    if (kind == 5) return 0;                              /* layer descent: a progress marker only */
+    if (kind == 2 || kind == 3 || kind == 4) return 1;    /* wait / retry / sleep: always hand the processor over */
+    if (yk_draining) return 0;                            /* fair continuation: no voluntary pre-emption */
+    return nondet_uint8() & 1;
+}
+void yk_thread(uint32_t i, void* fn);
+void yk_run_threads(uint32_t ctx);
+uint32_t yk_thread_done(uint32_t i);
+uint32_t yk_ctx_of_finish(uint32_t i);
 #endif
 #endif
